@@ -66,6 +66,14 @@ theorem run_length_bounded {c : Cfg} {s' : State} (tr : List Ev) (h : run c (ini
 
 example : (run (Ex.chain2 false) (init (Ex.chain2 false)) Ex.okRun).isSome = true ∧ Ex.okRun.length = 7 := by decide
 
+/-- the diamond: the four runs of `Lemmas/WalkerExamples.lean` (all ok with 1 ∥ 2; keep-going failure; fail-fast; interrupt with one
+    aborting and one ignoring callback) are accepted, within the bound 5·4+3, and the measure drops from 23 along them -/
+example : (run (Ex.diamond false) (init (Ex.diamond false)) Ex.diamondOkRun).isSome = true ∧ Ex.diamondOkRun.length = 13 ∧
+    (run (Ex.diamond true) (init (Ex.diamond true)) Ex.diamondFfRun).isSome = true ∧ Ex.diamondFfRun.length = 12 ∧
+    (run (Ex.diamond false) (init (Ex.diamond false)) Ex.diamondIntRun).isSome = true ∧
+    measure (Ex.diamond false) (init (Ex.diamond false)) = 23 ∧
+    measure (Ex.diamond false) (Ex.after (Ex.diamond false) Ex.diamondFailRun) < 23 := by decide
+
 /-- Progress: from every reachable state there is a finite continuation (of walker events only — no
     further interrupt is needed) that ends with `Walk` returned and every selected node resolved.
     Together with `terminates` (no infinite run) and `stuck_all_terminal` (no premature stop): every
